@@ -75,6 +75,10 @@ func (p *gcpPicker) Pick(info balancer.PickInfo) (balancer.PickResult, error) {
 				return balancer.PickResult{}, fmt.Errorf(
 					"failed to retrieve affinity key from request message: %v", err)
 			}
+			if len(a) == 0 {
+				return balancer.PickResult{}, fmt.Errorf(
+					"failed to retrieve affinity key from request message: no keys found by locator %q", locator)
+			}
 			boundKey = a[0]
 		}
 	}
@@ -101,6 +105,10 @@ func (p *gcpPicker) Pick(info balancer.PickInfo) (balancer.PickResult, error) {
 
 		switch cmd {
 		case grpc_gcp.AffinityConfig_BIND:
+			if !hasGCPCtx {
+				// No response message to get the affinity key from.
+				return
+			}
 			bindKeys, err := getAffinityKeysFromMessage(locator, gcpCtx.replyMsg)
 			if err == nil {
 				for _, bk := range bindKeys {
